@@ -76,6 +76,8 @@ type Task struct {
 	// held locks (ssync), for the lock-discipline monitor
 	heldL []LockState
 	heldM []int
+	// simulated child process the task belongs to (nil: the root process)
+	proc *Proc
 }
 
 // LockState is implemented by ssync's mutexes; the scheduler asks whether a parked request
@@ -451,7 +453,7 @@ func Go(site string, f func()) {
 	p.nchild++
 	id := append(append([]int{}, p.id...), p.nchild)
 	s.mu.Unlock()
-	t := &Task{id: id, Key: keyOf(id), wake: make(chan struct{})}
+	t := &Task{id: id, Key: keyOf(id), wake: make(chan struct{}), proc: p.proc}
 	s.startTask(t, site, f)
 	RaceEnable()
 }
@@ -463,6 +465,10 @@ func Exit(code int) {
 	s := cur.Load()
 	if s == nil {
 		panic(fmt.Sprintf("simrt.Exit(%d) outside a simulation", code))
+	}
+	if t := CurrentTask(); t != nil && t.proc != nil {
+		// a child process exits: only that process ends
+		exitProc(t.proc, code)
 	}
 	RaceDisable()
 	s.mu.Lock()
@@ -628,9 +634,12 @@ func (s *Sim) loop() {
 		}
 		s.current, s.last = t, t
 		if t.lockWait != nil {
-			t.lockWait.Grant(t.lockMode)
-			t.heldL = append(t.heldL, t.lockWait)
-			t.heldM = append(t.heldM, t.lockMode)
+			if t.lockMode != 0 {
+				t.lockWait.Grant(t.lockMode)
+				t.heldL = append(t.heldL, t.lockWait)
+				t.heldM = append(t.heldM, t.lockMode)
+			}
+			// (mode 0: a pipe or process condition - nothing is held afterwards)
 			t.lockWait = nil
 		}
 		t.parked = false
